@@ -20,6 +20,17 @@ import LpProofs.C01.Locate
 namespace Lp.C01
 open Lp Lp.Interp
 
+/-! ## 0. The constants read from the source fit the shape of the model -/
+
+/-- `LpModel.Interp` has ONE `pEdge`/`dyEdge` for both ends of the table and writes `pow(h[i], 2.0)` as
+    `h * h`.  The numeric literals of the source are regenerated into `Lp.C01.K` before every build
+    (translators/constants.py); the model is the code only if the literals of the last-point branch equal
+    those of the first-point branch and the exponent is 2.  Any other source text breaks this obligation. -/
+theorem model_shape_constants :
+    K.limLastS = K.limEdgeS ∧ K.limLastP = K.limEdgeP ∧ K.pLastOne = K.pEdgeOne ∧ K.aPow = 2 := by
+  refine ⟨?_, ?_, ?_, ?_⟩ <;>
+    norm_num [K.limLastS, K.limEdgeS, K.limLastP, K.limEdgeP, K.pLastOne, K.pEdgeOne, K.aPow]
+
 /-! ## 1. Knots are reproduced; value and first derivative are continuous across knots -/
 
 /-- kernel: a segment takes `d` and slope `c` at its left end -/
